@@ -1,6 +1,12 @@
-"""MANIFEST.setup_cmd: full .vo build of the theories of every claimed property, from files on disk only."""
+"""MANIFEST.setup_cmd: regenerate the translated model files from /repo/src, then a full .vo build of the theories of every
+claimed property, from files on disk only."""
+import importlib
 import json
+import os
 import sys
+
+sys.path.insert(0, "/repo/src")
+os.environ.setdefault("SCHEMATHESIS_VERIF", "1")
 
 from harness import core
 
@@ -8,6 +14,15 @@ manifest = json.load(open(core.VERIF / "MANIFEST.json"))
 failed = []
 for check in manifest["checks"]:
     prop = check["property_id"]
+    try:
+        gen = importlib.import_module(f"harness.props.{prop.lower()}_gen")
+    except ModuleNotFoundError:
+        gen = None
+    if gen is not None:
+        try:
+            print(f"[setup] {prop}: regenerated {gen.regenerate()}")
+        except Exception as exc:  # the check itself reports this as a broken tie
+            print(f"[setup] {prop}: translator failed: {type(exc).__name__}: {exc}")
     ok, out = core.make_all(prop=prop, dirs=core.dirs_of(prop))
     print(f"[setup] {prop}: {'ok' if ok else 'FAILED'}")
     if not ok:
